@@ -139,6 +139,10 @@ def gen_cases(rng, tier, count=None):
             box = [[-float(rng.uniform(0.05, 3)), float(rng.uniform(0.05, 3))] for _ in range(dim)]
             s = float(rng.choice([1.0, 1.0, 2.5, 0.37]))
             b = [float(rng.choice([1.0, 8.0, -16.0, 3.3, 100.0])) for _ in range(dim)]
+        if dim >= 2 and rng.random() < 0.25:
+            # a cube (all sides the same interval - what most users pass): its image under a translation with different
+            # components has pairwise different sides, so anything that identifies a side by its VALUE shows
+            box = [list(box[0]) for _ in range(dim)]
         c["box"] = box
         c.pop("alias_box", None)  # the image box has its own translation per coordinate
         c["box_kind"] = "dyadic" if exact else "affine"
